@@ -39,7 +39,7 @@ ASSUMPTIONS = [
 
 def GATES(tier):
     return [("reads_judged", 3000), ("stale_candidates", 300), ("cached_reads_without_getter", 200), ("override_reads", 50), ("chain_reads", 200),
-            ("failed_mutations", 50), ("copy_results_checked", 200), ("wildcard_graphs", 3), ("subclass_dependants", 3), ("post_init_fills", 3), ("subclass_overrides_property", 5),
+            ("failed_mutations", 50), ("copy_results_checked", 200), ("wildcard_graphs", 3), ("subclass_dependants", 3), ("post_init_fills", 3), ("subclass_overrides_property", 5), ("plain_subclass_dependants", 20),
             ("frozen_graphs", 5), ("deleter_graphs", 5), ("post_init_mutates_dependency", 5)] + [
         (f"entry:{e}", 10) for e in ("setattr", "delattr", "with", "transform_attr", "reset_attr", "with_item", "without_item", "update", "transform", "reset")
     ]
@@ -78,6 +78,8 @@ def make_source(g):
         sp = g["s_p"]
         reads = ", ".join(f"_rd(self, {d!r})" for d in sp["reads"])
         L += [f"    @spec_property(cache={sp['cache']}, invalidated_by={sp['inv']!r})", "    def p(self):  # overrides M.p with a longer dependency list", "        PROBE.enter('get:p')", f"        return ['p', {reads}]", ""]
+    # an undecorated leaf subclass adding a dependant of its own (it shares M's metadata)
+    L += ["class PL(M):", "    @spec_property(cache=True, invalidated_by=['a'])", "    def t(self):", "        PROBE.enter('get:t')", "        return ['t', _rd(self, 'a')]", ""]
     return "\n".join(L)
 
 
@@ -100,12 +102,11 @@ def reads_of(inv):
 
 def all_graphs():
     gs = []
-    for pc, pinv, qc, qinv, binv in itertools.product([True, False], [["a"], ["b"], ["a", "b"], ["c"], ["u"], ["*"]], [True, False], [["p"], ["a"], ["p", "b"], ["*"]], [None, ["a"]]):
+    for pc, pinv, qc, qinv, binv in itertools.product([True, False], [["a"], ["b"], ["a", "b"], ["c"], ["u"], ["*"]], [True, False], [["p"], ["a"], ["p", "b"], ["*"]], [None, ["a"], ["*"]]):
         qreads = [d for d in reads_of(qinv)]
         if qinv == ["*"]:
             qreads = ["a", "b", "c", "p"]
-        if "*" in pinv and ("p" in qinv or "*" in qinv):
-            continue  # wildcard + chain forms a cycle (p invalidated by q's slot, q by p): what '*' covers there is not documented
+        # (wildcard + chain forms a cycle - p invalidated by q's slot, q by p: every transitive dependant is reset once)
         gs.append({"p": {"cache": pc, "inv": pinv, "reads": reads_of(pinv)}, "q": {"cache": qc, "inv": qinv, "reads": qreads}, "b_inv": binv})
     return gs
 
@@ -118,10 +119,10 @@ class Model:
         self.slots = {n: ("empty", None) for n in self.props()}
 
     def props(self):
-        return ["p", "q"] + (["r"] if self.cname == "S" else [])
+        return ["p", "q"] + (["r"] if self.cname == "S" else []) + (["t"] if self.cname == "PL" else [])
 
     def spec(self, n):
-        if n == "r":
+        if n in ("r", "t"):
             return {"cache": True, "inv": ["a"], "reads": ["a"]}
         if n == "p" and self.cname == "S" and self.g.get("s_p"):
             return self.g["s_p"]
@@ -145,7 +146,7 @@ class Model:
                     nxt.append(n)
                     out.append(n)
             for attr, inv in attr_deps:
-                if inv and attr not in seen and any(f in inv for f in frontier):
+                if inv and attr not in seen and any(f != attr and (f in inv or "*" in inv) for f in frontier):
                     seen.add(attr)
                     nxt.append(attr)
                     out.append(attr)
@@ -215,9 +216,11 @@ def run(ctx, params):
                 live.append((inst, m))
                 if cname == "S":
                     ctx.count("subclass_dependants")
+                if cname == "PL":
+                    ctx.count("plain_subclass_dependants")
 
             new_instance("M")
-            new_instance(rng.choice(["M", "S"]))
+            new_instance(rng.choice(["M", "S", "PL"]))
             trace = []
             for step in range(params["length"]):
                 idx = rng.randrange(len(live))
@@ -226,7 +229,7 @@ def run(ctx, params):
                 case = [params.get("shard"), gi, hi, step]
                 desc = None
                 if kind == "new" and len(live) < 5:
-                    new_instance(rng.choice(["M", "S"]))
+                    new_instance(rng.choice(["M", "S", "PL"]))
                     continue
                 if kind == "read":
                     pass
@@ -293,9 +296,10 @@ def run(ctx, params):
                         ctx.count("stale_candidates")
                         # attributes declared invalidated_by=[a] are back at their default on the mutated object
                         subject = res if (res is not None and res is not inst and not inplace and entry not in ("setattr", "delattr")) else inst
-                        if "a" in changed_attrs:
+                        reset_expected = {d for ca in changed_attrs for d in subject_m.dependants(ca)}
+                        if reset_expected & {"b", "d"}:
                             for attr, inv, default in (("b", g["b_inv"], 10), ("d", ["a"] if subject_m.cname == "S" else None, 100)):
-                                if inv and attr not in changed_attrs or (inv and entry == "reset"):
+                                if attr in reset_expected and (attr not in changed_attrs or entry == "reset"):
                                     ctx.count("reads_judged")
                                     if subject.__dict__.get(attr, "<missing>") != default:
                                         ctx.violation("invalidated_attribute_reset", f"[{glabel}] after {desc}: {attr} (invalidated_by {inv}) is {subject.__dict__.get(attr, '<missing>')!r}, expected its default {default}",
